@@ -166,6 +166,9 @@ class Model:
     def int_var(self, lb, ub, name=None):
         if name is None:
             name = f"_v{len(self._vars)}"
+        if name in self._vars:
+            # both back-ends look variables up by name: a second variable of the same name would replace the first
+            raise ValueError(f"variable name {name!r} is already in use")
         var = IntVar(self, lb, ub, name)
         self._vars[name] = var
         return var
@@ -187,9 +190,15 @@ class Model:
         """At any time, sum of active demands <= capacity."""
         if len(starts) != len(durations) or len(durations) != len(demands):
             raise ValueError("starts, durations, demands must have same length")
+        if any(d < 0 for d in demands):
+            # the encoding enumerates minimal overloading subsets, which presumes that adding a task never lowers the load
+            raise ValueError("demands must be non-negative")
         return ("cumulative", tuple(starts), tuple(durations), tuple(demands), capacity)
 
     def add(self, constraint):
+        if not isinstance(constraint, tuple):
+            # e.g. a comparison that Python evaluated to a plain bool: both back-ends would silently skip it
+            raise TypeError(f"not a constraint: {constraint!r}")
         self._constraints.append(constraint)
 
     def _flatten_sum(self, expr):
